@@ -1,5 +1,5 @@
 """C08 - dynamic solvers always answer for the current framework"""
-from . import dyn, dynalloc, dyncnf
+from . import dynatt, dyn, dynalloc, dyncnf
 
 
 def run(ctx):
@@ -14,6 +14,7 @@ def run(ctx):
     dyn.rule_dummy_delegation(ctx)
     dyncnf.rule_dynamic_clause_templates(ctx)
     dyncnf.rule_dynamic_variable_registration(ctx)
+    dynatt.rule_attack_assumption_templates(ctx)
     ctx.assume("rustc's MIR and resolved callees; Vec/Cell/Rc/RefCell std semantics")
     return (
         "F5 on the event-log scans (update variants are barriers), F2 on logging/replay/cursor, allocator-discipline analysis of the SAT variables "
